@@ -217,6 +217,8 @@ impl<TStdlib: Stdlib, TStdIn: Input, TStdOut: Printer, TLpt1: Printer> Interpret
                     }
                 },
                 Err(e) => {
+                    #[cfg(rusty_basic_verif)]
+                    crate::interpreter::verif::on_error(i, e.err().get_code());
                     self.last_error_code = Some(e.err().get_code());
                     match ctx.error_handler {
                         ErrorHandler::Address(handler_address) => {
@@ -705,6 +707,18 @@ impl NearestStatementFinder {
             }
             Err(would_be_index) => self.statement_addresses[would_be_index],
         }
+    }
+}
+
+/// Verification hook: the statement start at or before `address` (`next` = false)
+/// or the first one after it (`next` = true), as RESUME and RESUME NEXT compute them.
+#[cfg(rusty_basic_verif)]
+pub fn verif_nearest_statement(statement_addresses: Vec<usize>, address: usize, next: bool) -> usize {
+    let finder = NearestStatementFinder::new(statement_addresses);
+    if next {
+        finder.find_next(address)
+    } else {
+        finder.find_current(address)
     }
 }
 
